@@ -31,6 +31,7 @@ type ReplayRecord struct {
 	ReplayFn  string            `json:"replay_fn,omitempty"`
 	Patches   []SrcPatch        `json:"source_patches,omitempty"`
 	Redirects map[string]string `json:"redirects,omitempty"`
+	ExtraPkgs []string          `json:"extra_pkgs,omitempty"`
 }
 
 // replayRecord runs the counterexample natively against /repo's current tree
@@ -47,7 +48,7 @@ func replayRecord(rec *ReplayRecord) (bool, string) {
 		return false, err.Error()
 	}
 	defer os.RemoveAll(tmp)
-	ov, pkgName, err := overlayFor(rec.Pkg)
+	ov, pkgName, err := overlayFor(rec.Pkg, rec.ExtraPkgs...)
 	if err != nil {
 		return false, err.Error()
 	}
